@@ -466,7 +466,7 @@ def check_history(ctx, case, recs, net, retries):
                     foreign = "an attribute write returned %r" % (rec["value"],)
             elif ident != (own_kind, tok):
                 foreign = "got the content of %r" % (ident,)
-            if foreign is None and (origin is None or origin["call"] != idx or origin["altered"]):
+            if foreign is None and (origin is None or origin["call"] != idx):
                 foreign = "consumed a reply that was produced for call %r" % (origin and origin["call"],)
             if foreign:
                 age = (rec["sends"] - origin["send"]) if origin else -1
